@@ -14,7 +14,7 @@
       control flow of `standard_readable_error_for_typedpy_exception` (fail-fast / collect-all,
       JSON list decoding, nested expansion, the one place where it can raise).
       Since /repo 4d96101 the three message regexes are compiled with `re.DOTALL` (`.` matches a
-      newline, so `(.*)$` takes the whole rest); since /repo <FIXID3> their field group is
+      newline, so `(.*)$` takes the whole rest); since /repo 18c6055 their field group is
       `(?:[\w.]|[^\x00-\x7f\s])+`: ASCII letters, digits, `_`, `.`, and EVERY non-ASCII character that
       is not white space (`pyFieldWord`, fully modelled — before, `\w` = `str.isalnum()` or `_` was an
       oracle and identifiers with combining marks / vowel signs lost their field).  Theorems stay
@@ -121,7 +121,7 @@ def isPySpace (c : Char) : Bool :=
   || (0x2000 ≤ n && n ≤ 0x200A) || n == 0x2028 || n == 0x2029 || n == 0x202F || n == 0x205F
   || n == 0x3000
 
-/-- the field group of errors.py since /repo <FIXID3>, without `_` and `.` (added by `isFieldChar`):
+/-- the field group of errors.py since /repo 18c6055, without `_` and `.` (added by `isFieldChar`):
     ASCII letters and digits, and every non-ASCII character that is not white space -/
 def pyFieldWord : Word := fun c => c.isAlphanum || (decide (c.toNat > 127) && !isPySpace c)
 
